@@ -318,7 +318,10 @@ class _RawConfigParser(configparser.RawConfigParser):
     self._sections = collections.OrderedDict()
 
   def optionxform(self, option):
-    option = option.strip()
+    # Remove all whitespace (as _ConfigParserDict does for stored keys) so that 'A - B' and 'f(r, a)'
+    # are the same option as 'A-B' and 'f(r,a)' wherever keys are compared: duplicate detection
+    # whilst reading, has_option() and therefore overrides, additions and removals.
+    option = "".join(option.split())
     return option
 
 class ConfigParser(object):
